@@ -10,7 +10,7 @@ use dicom_core::value::PrimitiveValue;
 use dicom_core::Tag;
 use dicom_encoding::text::SpecificCharacterSet;
 use dicom_parser::dataset::lazy_read::LazyDataSetReader;
-use dicom_parser::dataset::read::{DataSetReader, DataSetReaderOptions, OddLengthStrategy};
+use dicom_parser::dataset::read::{DataSetReader, DataSetReaderOptions, OddLengthStrategy, ValueReadStrategy};
 use dicom_parser::dataset::{DataToken, LazyDataToken};
 use dicom_parser::stateful::decode::{StatefulDecode, StatefulDecoder};
 use simcore::{check, fail, RunResult, Tape, Violation};
@@ -21,12 +21,13 @@ pub fn def() -> CheckDef {
     CheckDef {
         id: "C07",
         level: "exploration",
-        configs: &["accept-eager", "accept-lazy", "next-even-eager", "fail-eager", "even-baseline"],
+        configs: &["accept-eager", "accept-lazy", "next-even-eager", "fail-eager", "even-baseline", "next-even-lazy", "fail-lazy"],
         quick_runs: 200_000,
         thorough_runs: 4_000_000,
         run,
-        rule: "one run = one generated data set in which seed-chosen elements (every VR, including fixed-width binary VRs whose \
-               length is not a multiple of the unit; also inside items and defined-length sequences) carry an odd declared \
+        rule: "one run = one generated data set in which one seed-chosen value and, by the seed, further ones (every VR, including \
+               fixed-width binary VRs whose length is not a multiple of the unit; inside items and defined-length sequences; \
+               pixel data fragments; under NextEven also defined-length items and sequences themselves) carry an odd declared \
                length, encoded by the independent encoder in one of the three uncompressed syntaxes, served through a simulated \
                source with seed-chosen short reads and EINTR and read token by token by the real eager or lazy reader under one \
                odd-length strategy. A recording wrapper around the public StatefulDecode notes position() after every decoder \
@@ -37,7 +38,7 @@ pub fn def() -> CheckDef {
         real: &["DataSetReader (sanitize_length, sequence delimitation)", "LazyDataSetReader", "StatefulDecoder value readers and position accounting"],
         stub: &["byte source (SimSource)", "recording StatefulDecode wrapper (observer only)", "independent encoder producing the odd-length streams"],
         assumptions: &["no buffering layer sits between StatefulDecoder and the simulated source, so the byte comparison is exact"],
-        required_probes: &["odd-text", "odd-fixed-width", "odd-in-item", "odd-defined-sequence", "fail-reported"],
+        required_probes: &["odd-text", "odd-fixed-width", "odd-in-item", "odd-defined-sequence", "fail-reported", "odd-fragment", "odd-item-length", "odd-sequence-length"],
         net: false,
     }
 }
@@ -118,13 +119,35 @@ impl<D: StatefulDecode> StatefulDecode for Rec<D> {
     }
 }
 
-/// Make seed-chosen primitive elements odd. Returns the number made odd.
-fn make_odd(w: &mut Tape, env: &EnvRef, elems: &mut [Elem], in_item: bool, in_defined: bool, force: &mut bool) -> usize {
+/// number of values that can be given an odd length (primitive values, fragments)
+fn count_cands(elems: &[Elem]) -> usize {
+    elems
+        .iter()
+        .map(|e| match &e.val {
+            Val::Prim(_) => 1,
+            Val::Seq { items, .. } => items.iter().map(|i| count_cands(&i.elems)).sum(),
+            Val::Frags { frags, .. } => frags.len(),
+        })
+        .sum()
+}
+
+struct OddPlan {
+    /// stream-order index of the one value that is odd for sure
+    target: usize,
+    /// chance (1 in `others`) for every other value; 0 = none
+    others: u32,
+    idx: usize,
+}
+
+/// Make seed-chosen values odd. Returns the number made odd.
+fn make_odd(w: &mut Tape, env: &EnvRef, elems: &mut [Elem], in_item: bool, in_defined: bool, plan: &mut OddPlan) -> usize {
     let mut n = 0;
     for e in elems.iter_mut() {
         match &mut e.val {
             Val::Prim(p) => {
-                let pick = *force || w.chance(1, 3);
+                let forced = plan.idx == plan.target;
+                plan.idx += 1;
+                let pick = forced || (plan.others > 0 && w.chance(1, plan.others));
                 if !pick {
                     continue;
                 }
@@ -150,7 +173,6 @@ fn make_odd(w: &mut Tape, env: &EnvRef, elems: &mut [Elem], in_item: bool, in_de
                 if let Some(v) = raw {
                     *p = Prim::Raw(v);
                     n += 1;
-                    *force = false;
                     if in_item {
                         env.probe("odd-in-item");
                     }
@@ -162,32 +184,29 @@ fn make_odd(w: &mut Tape, env: &EnvRef, elems: &mut [Elem], in_item: bool, in_de
             Val::Seq { items, undef } => {
                 let def = !*undef;
                 for it in items.iter_mut() {
-                    n += make_odd(w, env, &mut it.elems, true, in_defined || def || !it.undef, force);
+                    n += make_odd(w, env, &mut it.elems, true, in_defined || def || !it.undef, plan);
                 }
             }
-            Val::Frags { .. } => {}
+            Val::Frags { frags, .. } => {
+                for f in frags.iter_mut() {
+                    let forced = plan.idx == plan.target;
+                    plan.idx += 1;
+                    if forced || (plan.others > 0 && w.chance(1, plan.others)) {
+                        if f.len() % 2 == 0 {
+                            f.push(0x5A);
+                        }
+                        env.probe("odd-fragment");
+                        n += 1;
+                    }
+                }
+            }
         }
     }
     n
 }
 
-/// primitive elements in stream order with their declared lengths
-fn expected_headers(elems: &[Elem], syn: Syntax, out: &mut Vec<(ds::Tag, u32)>) {
-    for e in elems {
-        match &e.val {
-            Val::Prim(_) => out.push((e.tag, ds::declared_len(e, syn).unwrap())),
-            Val::Seq { items, .. } => {
-                for it in items {
-                    expected_headers(&it.elems, syn, out);
-                }
-            }
-            Val::Frags { .. } => {}
-        }
-    }
-}
-
-fn first_odd(exp: &[(ds::Tag, u32)]) -> Option<usize> {
-    exp.iter().position(|x| x.1 % 2 == 1)
+fn first_odd(lens: &[ds::LenRec]) -> Option<usize> {
+    lens.iter().position(|x| x.declared != ds::UNDEF && x.declared % 2 == 1)
 }
 
 fn run(cfg: usize, w: &mut Tape, env: &EnvRef) -> RunResult {
@@ -195,29 +214,52 @@ fn run(cfg: usize, w: &mut Tape, env: &EnvRef) -> RunResult {
     let gcfg = GenCfg {
         max_depth: 3,
         private: false, // private attributes in Implicit VR become UN: nothing VR-specific to observe
-        pixel: false,
-        encapsulated: false,
+        pixel: true,
+        encapsulated: syn == Syntax::ExplicitLE,
         all_undefined: false,
         latin1: false,
     };
-    let mut model = ds::gen_dataset(w, &gcfg);
+    let mut model = restrict_to(&ds::gen_dataset(w, &gcfg), syn);
     let (strategy, lazy, name) = match cfg {
         0 => (OddLengthStrategy::Accept, false, "accept-eager"),
         1 => (OddLengthStrategy::Accept, true, "accept-lazy"),
         2 => (OddLengthStrategy::NextEven, false, "next-even-eager"),
         3 => (OddLengthStrategy::Fail, false, "fail-eager"),
-        _ => (OddLengthStrategy::Fail, false, "even-baseline"),
+        4 => (OddLengthStrategy::Fail, false, "even-baseline"),
+        5 => (OddLengthStrategy::NextEven, true, "next-even-lazy"),
+        _ => (OddLengthStrategy::Fail, true, "fail-lazy"),
     };
-    let mut force = cfg != 4;
-    let n_odd = if cfg == 4 { 0 } else { make_odd(w, env, &mut model, false, false, &mut force) };
+    let cands = count_cands(&model);
+    let n_odd = if cfg == 4 || cands == 0 {
+        0
+    } else {
+        let mut plan = OddPlan {
+            target: w.below(cands as u32) as usize,
+            others: [3, 0, 8][w.weighted(&[2, 1, 1]) as usize],
+            idx: 0,
+        };
+        make_odd(w, env, &mut model, false, false, &mut plan)
+    };
     if n_odd == 0 && cfg != 4 {
         return Ok(()); // nothing could be made odd (e.g. empty data set)
     }
     let hidden_pad = matches!(strategy, OddLengthStrategy::NextEven);
-    let (bytes, _) = ds::encode_opts(&model, syn, None, hidden_pad).map_err(|e| Violation::new("harness", "HARNESS-PANIC@c07", e))?;
-    let mut exp = Vec::new();
-    expected_headers(&model, syn, &mut exp);
-    env.with(|e| e.obs.note_with(|| format!("workload: {} {} odd={} {}", name, syn.name(), n_odd, describe(&model))));
+    // NextEven: some defined-length items / sequences declare an odd length too (one less than their content)
+    let odd_containers = if hidden_pad && w.chance(1, 2) { (w.below(u32::MAX) as u64) << 32 | w.below(u32::MAX) as u64 } else { 0 };
+    let (bytes, layout) = ds::encode_odd(&model, syn, None, hidden_pad, true, odd_containers).map_err(|e| Violation::new("harness", "HARNESS-PANIC@c07", e))?;
+    let lens = layout.lens;
+    let is_odd = |l: &ds::LenRec| l.declared != ds::UNDEF && l.declared % 2 == 1;
+    if lens.iter().any(|l| is_odd(l) && matches!(l.kind, ds::LenKind::Item)) {
+        env.probe("odd-item-length");
+    }
+    if lens.iter().any(|l| is_odd(l) && matches!(l.kind, ds::LenKind::Seq)) {
+        env.probe("odd-sequence-length");
+    }
+    // primitive element headers in stream order with their declared lengths
+    let exp: Vec<(ds::Tag, u32)> = lens.iter().filter(|l| l.kind == ds::LenKind::Prim).map(|l| (l.tag, l.declared)).collect();
+    // (a zero-length fragment has no value token)
+    let exp_frags: Vec<u32> = lens.iter().filter(|l| l.kind == ds::LenKind::Frag && l.declared > 0).map(|l| l.declared).collect();
+    env.with(|e| e.obs.note_with(|| format!("workload: {} {} odd={} containers={:x} {}", name, syn.name(), n_odd, odd_containers, describe(&model))));
 
     let src = SimSource::new(
         bytes.clone(),
@@ -238,8 +280,13 @@ fn run(cfg: usize, w: &mut Tape, env: &EnvRef) -> RunResult {
     };
     let mut opts = DataSetReaderOptions::default();
     opts.odd_length = strategy;
+    // binary and text values alike are also fetched as raw bytes (another family of value readers)
+    if w.chance(1, 3) {
+        opts.value_read = ValueReadStrategy::Raw;
+    }
     let who = format!("{}:{}", name, syn.name());
     let mut seen: Vec<(ds::Tag, u32)> = Vec::new();
+    let mut seen_frags: Vec<u32> = Vec::new();
     let mut error: Option<String> = None;
     let mut ntok = 0usize;
     let check_pos = |ntok: usize, what: &str| -> RunResult {
@@ -260,7 +307,8 @@ fn run(cfg: usize, w: &mut Tape, env: &EnvRef) -> RunResult {
         lopts.odd_length = strategy;
         let mut rd = LazyDataSetReader::new_with_options(rec, lopts);
         let _ = SpecificCharacterSet::default();
-        let style = w.below(3);
+        let style = w.below(4);
+        let mut after_bot = false;
         loop {
             let tok = match rd.advance() {
                 None => break,
@@ -277,14 +325,34 @@ fn run(cfg: usize, w: &mut Tape, env: &EnvRef) -> RunResult {
                     "element header"
                 }
                 LazyDataToken::LazyValue { .. } => "lazy value",
-                LazyDataToken::LazyItemValue { .. } => "lazy item value",
+                LazyDataToken::LazyItemValue { len, .. } => {
+                    // the first item of a pixel sequence is the offset table
+                    if after_bot {
+                        seen_frags.push(*len);
+                    }
+                    "lazy item value"
+                }
+                LazyDataToken::PixelSequenceStart => {
+                    after_bot = false;
+                    "structure token"
+                }
+                LazyDataToken::ItemEnd => {
+                    after_bot = true;
+                    "structure token"
+                }
                 _ => "structure token",
             };
-            // values are fetched or skipped, by the seed
+            // values are fetched (three ways) or skipped, by the seed
             let lazy_val = matches!(tok, LazyDataToken::LazyValue { .. } | LazyDataToken::LazyItemValue { .. });
             if lazy_val {
-                let skip = style == 1 || (style == 2 && w.chance(1, 2));
-                let r = if skip { tok.skip().map_err(|e| format!("{}", e)) } else { tok.into_owned().map(|_| ()).map_err(|e| format!("{}", e)) };
+                let how = if style == 3 { w.below(4) } else { style };
+                let is_elem = matches!(tok, LazyDataToken::LazyValue { .. });
+                let r = match how {
+                    1 => tok.skip().map_err(|e| format!("{}", e)),
+                    2 => tok.read_value_into(std::io::sink()).map_err(|e| format!("{}", e)),
+                    3 if is_elem => tok.into_value_with_strategy(ValueReadStrategy::Raw).map(|_| ()).map_err(|e| format!("{}", e)),
+                    _ => tok.into_owned().map(|_| ()).map_err(|e| format!("{}", e)),
+                };
                 if let Err(e) = r {
                     error = Some(e);
                     break;
@@ -310,6 +378,10 @@ fn run(cfg: usize, w: &mut Tape, env: &EnvRef) -> RunResult {
                     "element header"
                 }
                 DataToken::PrimitiveValue(_) => "primitive value",
+                DataToken::ItemValue(v) => {
+                    seen_frags.push(v.len() as u32);
+                    "fragment value"
+                }
                 _ => "structure token",
             };
             check_pos(ntok, what)?;
@@ -319,29 +391,35 @@ fn run(cfg: usize, w: &mut Tape, env: &EnvRef) -> RunResult {
     let _ = Tag(0, 0);
     match strategy {
         OddLengthStrategy::Fail => {
-            match first_odd(&exp) {
-                Some(k) => {
+            match first_odd(&lens) {
+                Some(j) => {
                     env.probe("fail-reported");
-                    check!(error.is_some(), "fail-strategy-reports", format!("c07:{}:no-error", name), "strategy Fail read a stream with an odd length at primitive element {} without reporting an error [{}]", k, who);
+                    // primitive element headers that precede the first odd declared length (of any kind)
+                    let k = lens[..j].iter().filter(|l| l.kind == ds::LenKind::Prim).count();
+                    let what = format!("{:?} length {} at byte {}", lens[j].kind, lens[j].declared, lens[j].off);
+                    check!(error.is_some(), "fail-strategy-reports", format!("c07:{}:no-error", name), "strategy Fail read a stream with an odd length ({}) without reporting an error [{}]", what, who);
                     check!(
                         seen.len() == k && seen[..] == exp[..k],
                         "fail-strategy-reports",
                         format!("c07:{}:wrong-place", name),
-                        "strategy Fail: error after {} element headers, the first odd length is at primitive element {} [{}]",
+                        "strategy Fail: error after {} element headers, but {} precede the first odd length ({}) [{}]",
                         seen.len(),
                         k,
+                        what,
                         who
                     );
                 }
                 None => {
                     check!(error.is_none(), "even-stream-reads", "c07:even-baseline:error", "even-length stream failed: {:?} [{}]", error, who);
                     check!(seen == exp, "even-stream-reads", "c07:even-baseline:headers", "even-length stream: headers differ [{}]", who);
+                    check!(seen_frags == exp_frags, "even-stream-reads", "c07:even-baseline:fragments", "even-length stream: fragment lengths differ [{}]", who);
                 }
             }
         }
         OddLengthStrategy::Accept | OddLengthStrategy::NextEven => {
             let bump = if hidden_pad { 1 } else { 0 };
             let expv: Vec<(ds::Tag, u32)> = exp.iter().map(|(t, l)| (*t, if l % 2 == 1 { l + bump } else { *l })).collect();
+            let expf: Vec<u32> = exp_frags.iter().map(|l| if l % 2 == 1 { l + bump } else { *l }).collect();
             if let Some(e) = &error {
                 fail!("odd-length-accepted", format!("c07:{}:error", name), "reader failed on a stream with odd lengths under strategy {:?}: {} (after {} of {} element headers) [{}]", strategy, e, seen.len(), expv.len(), who);
             }
@@ -363,6 +441,7 @@ fn run(cfg: usize, w: &mut Tape, env: &EnvRef) -> RunResult {
                 );
             }
             check!(seen.len() == expv.len(), "stays-aligned", format!("c07:{}:count", name), "{} element headers read, the stream has {} [{}]", seen.len(), expv.len(), who);
+            check!(seen_frags == expf, "stays-aligned", format!("c07:{}:fragments", name), "fragment lengths read {:?}, the stream has {:?} [{}]", seen_frags, expf, who);
             let h = handed.load(Ordering::SeqCst);
             check!(h == bytes.len(), "consumes-all", format!("c07:{}:not-consumed", name), "{} of {} bytes consumed [{}]", h, bytes.len(), who);
         }
